@@ -149,6 +149,9 @@ mod drop;
 mod hash;
 mod link;
 mod rc;
+/// Verification hooks (only with `--cfg cactusref_verif`).
+#[cfg(cactusref_verif)]
+pub mod verif;
 
 // Doc modules
 #[cfg(any(doctest, docsrs))]
